@@ -85,6 +85,16 @@ func subst(t *Term, m map[string]*Term) *Term {
 // helperFacts expands a guard that is a call of an in-scope boolean helper whose body is an || / && chain:
 // !(a || b || c) gives !a, !b, !c ; (a && b && c) gives a, b, c  (one level, parameters substituted).
 func (e *Engine) helperFacts(g Guard) []Rel {
+	var out []Rel
+	for _, hg := range e.helperGuards(g) {
+		out = append(out, relsOf(hg)...)
+	}
+	return out
+}
+
+// helperGuards: the branch facts that the outcome g of a boolean helper call implies (parameters substituted by
+// the call's arguments); `return !(a && b)` is the same as `return !a || !b`.
+func (e *Engine) helperGuards(g Guard) []Guard {
 	c := g.Cond
 	if c.Op != "ncall" && c.Op != "call" {
 		return nil
@@ -114,6 +124,14 @@ func (e *Engine) helperFacts(g Guard) []Rel {
 	}
 	var guards []Guard
 	v := rets[0].Results[0]
+	for {
+		u, isNot := v.(*ssa.UnOp)
+		if !isNot || u.Op != token.NOT {
+			break
+		}
+		v = u.X
+		g.Pos = !g.Pos
+	}
 	if phi, isPhi := v.(*ssa.Phi); isPhi {
 		// the edge that carries a non-constant value is the end of the chain
 		for i, ed := range phi.Edges {
@@ -153,10 +171,10 @@ func (e *Engine) helperFacts(g Guard) []Rel {
 		}
 		guards = append(guards, Guard{Cond: t, Pos: pos})
 	}
-	var out []Rel
+	var out []Guard
 	for _, hg := range guards {
 		hg.Cond = subst(hg.Cond, m)
-		out = append(out, relsOf(hg)...)
+		out = append(out, hg)
 	}
 	return out
 }
